@@ -36,10 +36,11 @@ type vxRunCfg struct {
 	Scenario  string `json:"scenario"`            // signal | stall
 	RpmSkew   int    `json:"rpmSkew"`             // RPM polling rate = 1s + skew microseconds (tie order of coinciding timers)
 	Faults    bool   `json:"faults"`              // write faults are choice points
+	MaxPwm    int    `json:"maxPwm,omitempty"`    // configured maxPwm (0 = not configured): the regulation range ends below 255
 }
 
 func (c vxRunCfg) String() string {
-	return fmt.Sprintf("%s noEnable=%v origMode=%d origPwm=%d stored=%v confMap=%v scenario=%s rpmSkew=%dus faults=%v", c.Kind, c.NoEnable, c.OrigMode, c.OrigPwm, c.Stored, c.ConfMap, c.Scenario, c.RpmSkew, c.Faults)
+	return fmt.Sprintf("%s noEnable=%v origMode=%d origPwm=%d stored=%v confMap=%v scenario=%s rpmSkew=%dus faults=%v maxPwm=%d", c.Kind, c.NoEnable, c.OrigMode, c.OrigPwm, c.Stored, c.ConfMap, c.Scenario, c.RpmSkew, c.Faults, c.MaxPwm)
 }
 
 type vxRunCase struct {
@@ -84,6 +85,10 @@ func vxRunBuild(cfg vxRunCfg, id string, fs *env.FS, chip string, db string, nev
 	if cfg.ConfMap {
 		m := vxMap("identity")
 		fc.PwmMap = &m
+	}
+	if cfg.MaxPwm > 0 {
+		mx := cfg.MaxPwm
+		fc.MaxPwm = &mx
 	}
 	switch cfg.Kind {
 	case "hwmon":
@@ -385,6 +390,12 @@ func vxC03Configs() []vxRunCfg {
 		out = append(out, vxRunCfg{Kind: "hwmon", OrigMode: m, OrigPwm: 100, Stored: true, ConfMap: false, Scenario: "signal", RpmSkew: 1, Faults: false})
 		out = append(out, vxRunCfg{Kind: "hwmon", OrigMode: m, OrigPwm: 100, Stored: false, ConfMap: false, Scenario: "signal", RpmSkew: 1, Faults: false})
 	}
+	// fans whose regulation range ends below 255 (configured maxPwm): "full speed" must still mean 255
+	for _, m := range []int{1, 2} {
+		out = append(out, vxRunCfg{Kind: "hwmon", OrigMode: m, OrigPwm: 60, Stored: true, ConfMap: true, Scenario: "signal", RpmSkew: 1, Faults: true, MaxPwm: 120})
+		out = append(out, vxRunCfg{Kind: "hwmon", OrigMode: m, OrigPwm: 60, Stored: true, ConfMap: true, Scenario: "stall", RpmSkew: 1, Faults: true, MaxPwm: 120})
+	}
+	out = append(out, vxRunCfg{Kind: "hwmon", NoEnable: true, OrigMode: -1, OrigPwm: 60, Stored: true, ConfMap: true, Scenario: "signal", RpmSkew: 1, Faults: false, MaxPwm: 120})
 	for _, p := range pwms {
 		out = append(out, vxRunCfg{Kind: "hwmon", NoEnable: true, OrigMode: -1, OrigPwm: p, Stored: true, ConfMap: true, Scenario: "signal", RpmSkew: 1, Faults: true})
 		out = append(out, vxRunCfg{Kind: "file", OrigMode: -1, OrigPwm: p, Stored: true, ConfMap: true, Scenario: "signal", RpmSkew: 1, Faults: true})
